@@ -60,6 +60,15 @@ class StoreWorld:
     async def settle(self):
         await self.sim.quiescent()
 
+    def _full_post(self, o):
+        """secondary structures after the operation (tag rows / raw key space), for the index-entry clauses"""
+        o["post_full"] = self.env.dump(full=True)
+        if self.backend == "lmdb":
+            import lmdb
+            st = lmdb._ENVS.get(self.env.lmdb_path)
+            if st is not None:
+                o["post_raw"] = (list(st.keys), dict(st.data))
+
     async def run(self, ops):
         env = self.env
         await env.open()
@@ -88,6 +97,8 @@ class StoreWorld:
         try:
             if kind == "add":
                 o["pre"] = env.dump()
+                if self.full_gc:
+                    o["pre_full"] = env.dump(full=True)
                 try:
                     ev, changed = await st.add_event(copy.deepcopy(op[1]))
                     o["res"] = ["ok", bool(changed), ev.id]
@@ -97,6 +108,8 @@ class StoreWorld:
                 if self.settle_each:
                     await self.settle()
                     o["post"] = env.dump()
+                    if self.full_gc:
+                        self._full_post(o)
             elif kind == "query":
                 out = []
                 try:
@@ -140,11 +153,7 @@ class StoreWorld:
                     await self.settle()
                     o["post"] = env.dump()
                     if self.full_gc:
-                        o["post_full"] = env.dump(full=True)
-                        if self.backend == "lmdb":
-                            import lmdb
-                            st = lmdb._ENVS.get(env.lmdb_path)
-                            o["post_raw"] = (list(st.keys), dict(st.data))
+                        self._full_post(o)
             elif kind == "settle":
                 await self.settle()
                 o["res"] = ["ok"]
